@@ -1,6 +1,6 @@
 (* finite theorems by complete computation *)
 From Coq Require Import NArith ZArith List Bool Lia.
-Require Import PtnMove Playtak Board Move GameOver Tps Symmetry Fpa.
+Require Import PtnMove Playtak Board Move GameOver Tps Symmetry.
 Import ListNotations.
 
 (* C11: the playtak wire spelling round-trips for every move shape whose slide ends on the 8x8 grid *)
@@ -16,9 +16,4 @@ Definition all_srv_ok : bool := forallb (fun x => forallb (fun y => forallb srv_
 Theorem server_roundtrip_all : all_srv_ok = true.
 Proof. vm_compute. reflexivity. Qed.
 
-(* C20 on the pinned code: the scripts fail, by complete enumeration of the 4x4 domain *)
-Theorem fpa_refuted_pinned_4 :
-  illegal (run [] DoubleStack 4 false) = 65%N /\ illegal (run [] Cairn 4 false) = 448%N /\ selfrej (run [] Cairn 4 true) = 626%N /\
-  illegal (run [] DoubleStack 4 true) = 0%N /\ crash (run [] Cairn 4 false) = 0%N.
-Proof. vm_compute. repeat split. Qed.
-Print Assumptions fpa_refuted_pinned_4.
+(* the C20 (first-player-advantage scripts) theorems by enumeration are in FpaFacts.v *)
